@@ -486,7 +486,14 @@ fn quals_step(q: &mut Qualifiers, a: &[&str]) -> Result<String, String> {
                             Entry::Vacant(_) => "V".to_string(),
                         },
                         "oins" => match entry {
-                            Entry::Occupied(mut o) => format!("O{}", h(&o.insert(v.as_str()))),
+                            Entry::Occupied(mut o) => {
+                                // the same entry goes on being usable after insert(): it reads back what was written
+                                let old = o.insert(v.as_str());
+                                let g = o.get().to_string();
+                                let gm = o.get_mut().to_string();
+                                let im = o.into_mut().to_string();
+                                format!("O{}{}", h(&old), if g == v && gm == v && im == v { "" } else { "!get" })
+                            },
                             Entry::Vacant(_) => "V".to_string(),
                         },
                         "orm" => match entry {
@@ -784,6 +791,15 @@ fn quals_step(q: &mut Qualifiers, a: &[&str]) -> Result<String, String> {
                 Ok(s) => h(&s),
                 Err(e) => e.full(),
             },
+        },
+        "tit" => {
+            // try_insert_typed(Checksum{alg: raw}): a refused value must leave the collection as it was
+            let mut c = Checksum::default();
+            c.insert_raw(&unh(arg(a, 1)?)?, unh(arg(a, 2)?)?);
+            match q.try_insert_typed(c) {
+                Ok(()) => ".".to_string(),
+                Err(e) => e.full(),
+            }
         },
         "hast" => {
             let n: usize = arg(a, 1)?.parse().map_err(|_| "bad index".to_string())?;
